@@ -911,10 +911,10 @@ func init() {
 		// strictly monotone in the byte (model of "well-formed RFC3339 strings are
 		// totally ordered instants"); concrete strings run the real parser.
 		p.reg("time.Parse", func(ex *Exec, fr *Frame, args []Value) Value {
-			if _, conc := args[1].(string); conc {
+			bs := strBytes(args[1])
+			if _, conc := args[1].(string); conc && len(bs) != 1 {
 				return ex.runReal(fr, "time.Parse", args)
 			}
-			bs := strBytes(args[1])
 			if len(bs) != 1 {
 				ex.unsupported("time.Parse on a symbolic string of %d bytes", len(bs))
 			}
